@@ -151,7 +151,7 @@ func (w *world) calleeName(u *unit, call *ast.CallExpr) (name string, ok bool) {
 // Writes
 // ---------------------------------------------------------------------------
 
-type write struct{ class, text, note string }
+type write struct{ class, text, note, pass string }
 
 // inBodyDecl reports whether obj is declared inside the unit's body (i.e. is
 // neither a parameter, a result nor the receiver).
@@ -277,6 +277,37 @@ descend:
 	if u.recv != nil && v == u.recv {
 		heap = "heap:recv"
 	}
+	// the same write seen from one run of the outermost function literal it sits in (for functions that return a
+	// sequence this literal is the body of one pass): does it touch anything that outlives the run?
+	if len(lits) > 0 {
+		outer := lits[0]
+		inPass := outer.Body.Pos() <= v.Pos() && v.Pos() < outer.Body.End() // parameters of the literal are per call too
+		if !inPass {
+			for _, f := range outer.Type.Params.List {
+				for _, nm := range f.Names {
+					if w.info.Defs[nm] == obj {
+						inPass = true
+					}
+				}
+			}
+		}
+		switch {
+		case pathDeref:
+			out.pass = heap
+		case mode == wAppend && elemDeref, elemDeref:
+			if inPass && isFreshSlice(w, outer, v) {
+				out.pass = "pass-local"
+			} else if inPass {
+				out.pass = heap
+			} else {
+				out.pass = "captured"
+			}
+		case inPass:
+			out.pass = "pass-local"
+		default:
+			out.pass = "captured"
+		}
+	}
 	switch {
 	case pathDeref:
 		out.class = heap
@@ -301,6 +332,62 @@ descend:
 	return out, true
 }
 
+// isFreshSlice reports whether the slice/map variable v, declared inside lit, only ever holds storage created inside
+// lit: every value assigned to it there is make(…), a composite literal, nil, append(v, …) or a re-slice of v itself.
+func isFreshSlice(w *world, lit *ast.FuncLit, v *types.Var) bool {
+	ok := true
+	var fresh func(e ast.Expr) bool
+	fresh = func(e ast.Expr) bool {
+		switch x := unparen(e).(type) {
+		case *ast.CompositeLit:
+			return true
+		case *ast.Ident:
+			return x.Name == "nil" || w.info.Uses[x] == v
+		case *ast.SliceExpr:
+			return fresh(x.X)
+		case *ast.CallExpr:
+			if id, isId := unparen(x.Fun).(*ast.Ident); isId {
+				if id.Name == "make" {
+					return true
+				}
+				if id.Name == "append" && len(x.Args) > 0 {
+					return fresh(x.Args[0])
+				}
+			}
+		}
+		return false
+	}
+	ast.Inspect(lit.Body, func(n ast.Node) bool {
+		switch n := n.(type) {
+		case *ast.AssignStmt:
+			for i, l := range n.Lhs {
+				id, isId := unparen(l).(*ast.Ident)
+				if !isId {
+					continue
+				}
+				obj := w.info.Defs[id]
+				if obj == nil {
+					obj = w.info.Uses[id]
+				}
+				if obj != v {
+					continue
+				}
+				if len(n.Rhs) != len(n.Lhs) || !fresh(n.Rhs[i]) {
+					ok = false
+				}
+			}
+		case *ast.ValueSpec:
+			for i, nm := range n.Names {
+				if w.info.Defs[nm] == v && i < len(n.Values) && !fresh(n.Values[i]) {
+					ok = false
+				}
+			}
+		}
+		return true
+	})
+	return ok
+}
+
 // ---------------------------------------------------------------------------
 // Generator
 // ---------------------------------------------------------------------------
@@ -309,7 +396,7 @@ func genEffects(w *world) string {
 	f := newLeanFile("Functions, static callees and syntactic write footprints of package art\n" +
 		"(files compiled without the build tag `verif`, no tests, GOOS=linux GOARCH=amd64).")
 
-	var funcs, externs, calls, refs, writes []string
+	var funcs, externs, calls, refs, writes, passWrites, seqFuncs []string
 	for _, u := range w.units {
 		funcs = append(funcs, leanStr(u.name))
 		if u.body == nil {
@@ -411,6 +498,29 @@ func genEffects(w *world) string {
 		if len(frefs) > 0 {
 			refs = append(refs, tuple(leanStr(u.name), leanStrList(frefs)))
 		}
+		if u.decl != nil && u.decl.Type.Results != nil && len(u.decl.Type.Results.List) == 1 {
+			rt := w.info.TypeOf(u.decl.Type.Results.List[0].Type)
+			isSeq := false
+			if nt, ok := types.Unalias(rt).(*types.Named); ok && nt.Obj().Pkg() != nil && nt.Obj().Pkg().Path() == "iter" {
+				isSeq = true
+			} else if at, ok := rt.(*types.Alias); ok && at.Obj().Pkg() != nil && at.Obj().Pkg().Path() == "iter" {
+				isSeq = true
+			}
+			if isSeq {
+				seqFuncs = append(seqFuncs, leanStr(u.name))
+				var es []elem
+				for _, x := range ws {
+					if x.pass != "" {
+						es = append(es, elem{s: tuple(leanStr(x.pass), leanStr(x.text))})
+					}
+				}
+				if len(es) == 0 {
+					passWrites = append(passWrites, tuple(leanStr(u.name), "[]"))
+				} else {
+					passWrites = append(passWrites, "("+leanStr(u.name)+", [\n"+strings.TrimRight(joinElems(es, "    "), "\n")+"])")
+				}
+			}
+		}
 		if len(ws) == 0 {
 			writes = append(writes, tuple(leanStr(u.name), "[]"))
 		} else {
@@ -447,6 +557,17 @@ func genEffects(w *world) string {
 		"  global      rooted at a package-level variable\n"+
 		"Doubtful cases are classified as heap and carry a trailing comment.",
 		"writes", "List (String × List (String × String))", writes)
+
+	f.list("functions and methods whose single result is an iter.Seq / iter.Seq2: what they return is a sequence that may be\n"+
+		"ranged over any number of times",
+		"seqFuncs", "List String", seqFuncs)
+	f.list("For each of those: the writes located inside function literals, classified from the point of view of ONE run of the\n"+
+		"outermost literal (= one pass over the sequence):\n"+
+		"  pass-local  a variable declared inside that literal (or one of its parameters), or the elements of a slice/map variable\n"+
+		"              declared there that only ever holds storage created there (make, literal, nil, append/re-slice of itself)\n"+
+		"  captured    a variable of the enclosing function: survives from one pass to the next\n"+
+		"  heap:recv / heap:param / global   as in `writes`",
+		"passWrites", "List (String × List (String × String))", passWrites)
 
 	var globals []string
 	blanks := 0
